@@ -69,7 +69,7 @@ func c09(run *ev.Run) {
 	case "bridge":
 		sc = bridgeScenario(run, 0.7)
 		sc.acts = append(pickMints(sc.acts), bridgeLedgerActions(sc)...)
-		sc.dq, sc.dt = 3, 4
+		sc.dq, sc.dt = 3, 3
 		sc.ignoreTime = true
 	default:
 		ev.Fatal("unknown scenario %s", which)
@@ -93,7 +93,7 @@ func c04(run *ev.Run) {
 	case "bridge":
 		sc = bridgeScenario(run, 0.7)
 		sc.acts = append(pickMints(sc.acts), bridgeLedgerActions(sc)...)
-		sc.dq, sc.dt = 3, 4
+		sc.dq, sc.dt = 3, 3
 		sc.ignoreTime = true
 	default:
 		ev.Fatal("unknown scenario %s", which)
